@@ -71,3 +71,13 @@ def register_all(prop):
                "4 s. gated_late_workconn: a work connection held inside registration while the session is torn down must be closed, not parked. "
                "non-trivial = >= 2 users, hostile delivery, surplus, or a session end with users; distinct = distinct case."),
          assumptions=["timing oracles (bounds of seconds) use confirm-on-retry", "https muxer path is exercised in C01/C06, not here"])
+    prop("C08", qshards=8, tshards=16, qlimit=480, tlimit=3000,
+         rule=("admission: 1..2 scripted owners (users '', alice, bob) register 1..3 stcp / sudp / xtcp proxies with allowUsers in {absent, "
+               "[alice], [bob,carol], [*], [''], [alice,*]} and their own encryption/compression flags; 2..14 requests from visitor sessions of users "
+               "'', alice, bob, mallory: NewVisitorConn (proxy live / closed / never existed, any timestamp, signature correct / other key / other "
+               "timestamp / empty, run id own / empty / another user's / unknown, enc/comp flags) and NatHoleVisitor with pre-check on/off; proxies are "
+               "closed and re-opened in between. Oracle: admit <=> live AND signature == digest(sk, ts) AND (user(run id) in allowed OR '*'); refused "
+               "=> error response, no StartWorkConn / session id at the owner, table snapshot unchanged; admitted stcp streams echo a payload "
+               "bit-exactly through the visitor's wrappers (keyed by sk) and the proxy's (keyed by the token) in all 16 combinations. non-trivial = "
+               "request against an existing proxy where signature validity and run-id validity differ, or an admitted stream with differing wrappers."),
+         assumptions=["nathole.NatHoleTimeout (exported variable) is set to 1 s by the harness", "sudp admitted streams carry protocol messages: only admission is decided here, payloads in C03"])
